@@ -57,6 +57,10 @@ XBAR = {   # whole core behind the crossing (get_port path). 'deepq' = deep bank
                                               profile="sat", ncmd=350, addr_range=8, ctrl=dict(refresh_postponing=8)),
     "xbar-DDR3_200-6to1-postpone8-write": dict(base="DDR3_200", clocks=([120, 0], [20, 0]), tech=dict(tREFI=1000), mode="write",
                                                profile="sat", ncmd=350, addr_range=8, ctrl=dict(refresh_postponing=8)),
+    # crossing combined with width conversion in get_port (converter on the user side of the crossing, in the user domain)
+    "xbar-conv-up2-SDR-7to10": dict(base="SDR", clocks=PAIRS["7to10"], tech=dict(tREFI=1800), mode="both", profile="mixed", ncmd=260, user_dw=8),
+    "xbar-conv-up4-DDR3-3to1": dict(base="DDR3", clocks=PAIRS["3to1"], tech=dict(tREFI=1800), mode="both", profile="mixed", ncmd=260, user_dw=32),
+    "xbar-conv-down2-SDR-1to3": dict(base="SDR", clocks=PAIRS["1to3"], tech=dict(tREFI=1800), mode="both", profile="mixed", ncmd=200, user_dw=32),
     "xbar-deepq-read": dict(base="DDR3_200", clocks=([120, 0], [20, 0]), tech=dict(tREFI=1000), mode="read", profile="sat", ncmd=350,
                             addr_range=8, ctrl=dict(cmd_buffer_depth=16, refresh_postponing=8), max_ucycles=700),
     "xbar-deepq-write": dict(base="DDR3_200", clocks=([120, 0], [20, 0]), tech=dict(tREFI=1000), mode="write", profile="sat", ncmd=350,
@@ -149,7 +153,7 @@ def execute(sc, workdir):
         core = dict(corecommon.BASE[x["base"]], tech=x.get("tech", {}), ports=[{}], ctrl=x.get("ctrl", {}))
         d = dict(via="xbar", core=core, mode=x["mode"], clocks=dict(user=x["clocks"][0], sys=x["clocks"][1]), ncmd=x["ncmd"],
                  profile=x["profile"], seed=sc["seed"])
-        for k in ("addr_range", "max_ucycles"):
+        for k in ("addr_range", "max_ucycles", "user_dw"):
             if k in x:
                 d[k] = x[k]
         runs.append((x["mode"], d, 2500, True))
@@ -180,7 +184,8 @@ def execute(sc, workdir):
         r = cdcdut.run_cdc(d, lock_edges=lock_edges)
         tid = j + 1
         tids[tid] = tag
-        lines.append(dict(c="NEW", tid=tid, nports=1, uniq=d.get("dw", 32) >= 32, memsem=memsem))
+        lines.append(dict(c="NEW", tid=tid, nports=1, uniq=d.get("dw", 32) >= 32 and not d.get("user_dw"), memsem=memsem,
+                          nocross=bool(d.get("user_dw"))))
         lines.extend(r["events"])
         if r["lock"]:
             if depths is None:
